@@ -241,4 +241,15 @@ VARIANTS = [
                             "        fwd_injections.mark_dropped(message.packet_id)\n",
          "new": "        both = self._get_injections(message.direction)\n        fwd_injections, reverse_injections = both[0], both[1]\n\n"
                 "        fwd_injections.mark_dropped(message.packet_id)\n"}]},
+    # ------------------------------------------------------------------ key helper (refactor round 3, G2/7)
+    {"name": "P R4 table key built by a module-level helper on the writer side", "expect": "silent", "edits": [
+        {"file": BC, "old": "class Circuit:\n", "new": "def _table_key(m):\n    return m.direction, m.packet_id\n\n\nclass Circuit:\n"},
+        {"file": BC, "old": "                self.unacked_reliable[(message.direction, message.packet_id)] = ReliableResendInfo(\n",
+         "new": "                self.unacked_reliable[_table_key(message)] = ReliableResendInfo(\n"},
+        {"file": BC, "old": "                del self.unacked_reliable[(msg.direction, msg.packet_id)]\n",
+         "new": "                del self.unacked_reliable[_table_key(msg)]\n"}]},
+    {"name": "R4 key helper swaps the order on the writer side only", "expect": "C05.R4", "edits": [
+        {"file": BC, "old": "class Circuit:\n", "new": "def _table_key(m):\n    return m.packet_id, m.direction\n\n\nclass Circuit:\n"},
+        {"file": BC, "old": "                self.unacked_reliable[(message.direction, message.packet_id)] = ReliableResendInfo(\n",
+         "new": "                self.unacked_reliable[_table_key(message)] = ReliableResendInfo(\n"}]},
 ]
